@@ -116,6 +116,7 @@ def run(tier):
     r = copy.deepcopy(base)
     o = cli.run_inproc([{"usage": base["usage"], "shell": "fish", "opt": {"dest": "file", "dfa": True, "regex": True, "keep": True}}])[0]
     r["obs"]["dfa"], r["obs"]["regex"], r["obs"]["base"] = c16.project_dfa(o["dfa"]), c16.project_regex(o["regex"]), 1
+    r["obs"]["cmdcps"] = []
     bad = copy.deepcopy(r)
     bad["obs"]["dfa"]["edges"] = [e for e in bad["obs"]["dfa"]["edges"] if e["dashed"] or e != [x for x in bad["obs"]["dfa"]["edges"] if not x["dashed"]][0]]
     bad2 = copy.deepcopy(r)
